@@ -50,6 +50,143 @@ fn some_uri(rng: &mut Rng, s: &Server, keys: &[String]) -> (String, &'static str
     }
 }
 
+/// one session against the real `iwes` binary over stdio (Content-Length framing, real initialize handshake)
+fn stdio_session(rep: &mut CaseReport) {
+    use std::io::{BufRead, BufReader, Read, Write};
+    use std::process::{Command, Stdio};
+    let bin = mon::verif_root().join("harness/target/repo/release/iwes");
+    if !bin.exists() {
+        rep.count("stdio_binary_missing", 1);
+        return;
+    }
+    let dir = mon::scratch_dir("c12-stdio");
+    std::fs::write(dir.join("a.md"), "# A\n\n[x](b)\n").unwrap();
+    std::fs::write(dir.join("b.md"), "# B\n\n\n*  item\n").unwrap();
+    let mut child = match Command::new(&bin).current_dir(&dir).stdin(Stdio::piped()).stdout(Stdio::piped()).stderr(Stdio::null()).spawn() {
+        Ok(c) => c,
+        Err(e) => {
+            rep.inconclusive.push(format!("spawn iwes: {}", e));
+            return;
+        }
+    };
+    let mut stdin = child.stdin.take().unwrap();
+    let stdout = child.stdout.take().unwrap();
+    let (tx, rx) = crossbeam_channel::unbounded::<serde_json::Value>();
+    std::thread::spawn(move || {
+        let mut r = BufReader::new(stdout);
+        loop {
+            let mut len = 0usize;
+            loop {
+                let mut line = String::new();
+                if r.read_line(&mut line).unwrap_or(0) == 0 {
+                    return;
+                }
+                let l = line.trim();
+                if l.is_empty() {
+                    break;
+                }
+                if let Some(v) = l.strip_prefix("Content-Length:") {
+                    len = v.trim().parse().unwrap_or(0);
+                }
+            }
+            let mut buf = vec![0u8; len];
+            if r.read_exact(&mut buf).is_err() {
+                return;
+            }
+            if let Ok(v) = serde_json::from_slice::<serde_json::Value>(&buf) {
+                if tx.send(v).is_err() {
+                    return;
+                }
+            }
+        }
+    });
+    let mut send = |v: serde_json::Value| {
+        let body = v.to_string();
+        let _ = write!(stdin, "Content-Length: {}\r\n\r\n{}", body.len(), body);
+        let _ = stdin.flush();
+    };
+    let wait = |id: i64| -> Vec<serde_json::Value> {
+        // all responses for `id` arriving within the window after the first one
+        let mut got = vec![];
+        let deadline = std::time::Instant::now() + std::time::Duration::from_secs(20);
+        while std::time::Instant::now() < deadline {
+            match rx.recv_timeout(std::time::Duration::from_millis(if got.is_empty() { 500 } else { 150 })) {
+                Ok(v) => {
+                    if v.get("id").and_then(|i| i.as_i64()) == Some(id) && v.get("method").is_none() {
+                        got.push(v);
+                    }
+                }
+                Err(_) => {
+                    if !got.is_empty() {
+                        break;
+                    }
+                }
+            }
+        }
+        got
+    };
+    let uri = |k: &str| lsp_types::Url::from_file_path(dir.join(format!("{}.md", k))).unwrap().to_string();
+    send(json!({"jsonrpc": "2.0", "id": 1, "method": "initialize", "params": {"capabilities": {}, "processId": null, "rootUri": null}}));
+    let init = wait(1);
+    send(json!({"jsonrpc": "2.0", "method": "initialized", "params": {}}));
+    let replay = json!({"driver": "stdio"});
+    if init.len() != 1 || init[0].get("result").is_none() {
+        rep.violate("stdio-initialize", "stdio", format!("initialize answered {:?}", init), replay.clone());
+    }
+    let script: Vec<(i64, &str, serde_json::Value, bool)> = vec![
+        (2, "textDocument/formatting", json!({"textDocument": {"uri": uri("b")}, "options": {"tabSize": 2, "insertSpaces": true}}), true),
+        (3, "textDocument/formatting", json!({"textDocument": {"uri": uri("nope")}, "options": {"tabSize": 2, "insertSpaces": true}}), false),
+        (4, "textDocument/hover", json!({"textDocument": {"uri": uri("a")}, "position": {"line": 0, "character": 0}}), false),
+        (5, "textDocument/references", json!({"textDocument": {"uri": uri("b")}, "position": {"line": 0, "character": 0}, "context": {"includeDeclaration": false}}), true),
+        (6, "workspace/executeCommand", json!({"command": "nothing", "arguments": []}), false),
+        (7, "textDocument/formatting", json!({"textDocument": {"uri": uri("b")}, "options": {"tabSize": 2, "insertSpaces": true}}), true),
+    ];
+    for (id, m, p, want_result) in script {
+        send(json!({"jsonrpc": "2.0", "id": id, "method": m, "params": p}));
+        let r = wait(id);
+        rep.count("events", 1);
+        rep.count("stdio_requests", 1);
+        if r.len() != 1 {
+            rep.violate("stdio-response-count", &format!("stdio:{}", m), format!("{} responses for request {} ({})", r.len(), id, m), replay.clone());
+            continue;
+        }
+        if want_result && r[0].get("result").is_none() {
+            rep.violate("stdio-error-for-valid-request", &format!("stdio:{}", m), r[0].to_string(), replay.clone());
+        }
+        if id == 2 || id == 7 {
+            let text = r[0]["result"][0]["newText"].as_str().unwrap_or("");
+            if text != "# B\n\n- item\n" {
+                rep.violate("server-stopped-serving", "stdio", format!("formatting of b.md returned {:?}", text), replay.clone());
+            }
+        }
+    }
+    send(json!({"jsonrpc": "2.0", "id": 99, "method": "shutdown", "params": null}));
+    let sd = wait(99);
+    send(json!({"jsonrpc": "2.0", "method": "exit", "params": null}));
+    let t0 = std::time::Instant::now();
+    let mut status = None;
+    while t0.elapsed() < std::time::Duration::from_secs(10) {
+        if let Ok(Some(st)) = child.try_wait() {
+            status = Some(st);
+            break;
+        }
+        std::thread::sleep(std::time::Duration::from_millis(20));
+    }
+    if sd.len() != 1 {
+        rep.violate("stdio-response-count", "stdio:shutdown", format!("{} responses to shutdown", sd.len()), replay.clone());
+    }
+    match status {
+        Some(st) if st.success() => {}
+        Some(st) => rep.violate("unclean-shutdown", "stdio", format!("iwes exited with {} after shutdown/exit", st), replay.clone()),
+        None => {
+            let _ = child.kill();
+            rep.violate("unclean-shutdown", "stdio", "iwes still running 10 s after exit".into(), replay.clone());
+        }
+    }
+    rep.count("stdio_sessions", 1);
+    let _ = std::fs::remove_dir_all(&dir);
+}
+
 impl Check for C12 {
     fn id(&self) -> &'static str {
         "C12"
@@ -76,6 +213,9 @@ impl Check for C12 {
     }
     fn run_case(&self, tier: Tier, seed: u64, case: u64) -> CaseReport {
         let mut rep = CaseReport::new(case);
+        if case == 0 {
+            stdio_session(&mut rep);
+        }
         let mut rng = Rng::for_case(seed, "c12", case);
         let mut lib = small_lib(&mut rng, tier);
         let keys: Vec<String> = lib.keys().cloned().collect();
